@@ -66,6 +66,39 @@ class Event:
         return k
 
 
+def _unroll_any_all(test, st):
+    """any(f(x) for x in (a, b)) used as a condition is `f(a) or f(b)` (all: and), with the same left-to-right short circuit: a
+    comprehension over a short literal sequence is unrolled exactly, like a `for` over one"""
+    if not (isinstance(test, ast.Call) and isinstance(test.func, ast.Name) and test.func.id in ("any", "all") and test.func.id not in st.env
+            and len(test.args) == 1 and not test.keywords and isinstance(test.args[0], (ast.GeneratorExp, ast.ListComp))):
+        return None
+    g = test.args[0]
+    if len(g.generators) != 1:
+        return None
+    c = g.generators[0]
+    if c.ifs or c.is_async or not isinstance(c.target, ast.Name) or not isinstance(c.iter, (ast.Tuple, ast.List)) or not 0 < len(c.iter.elts) <= 4 \
+            or any(isinstance(e, ast.Starred) for e in c.iter.elts):
+        return None
+    import copy
+
+    class _Sub(ast.NodeTransformer):
+        def __init__(self, name, repl):
+            self.name, self.repl = name, repl
+
+        def visit_Name(self, node):
+            if node.id == self.name and isinstance(node.ctx, ast.Load):
+                return copy.deepcopy(self.repl)
+            return node
+    vals = [_Sub(c.target.id, e).visit(copy.deepcopy(g.elt)) for e in c.iter.elts]
+    if len(vals) == 1:
+        return ast.copy_location(vals[0], test)
+    b = ast.BoolOp(op=ast.Or() if test.func.id == "any" else ast.And(), values=vals)
+    ast.copy_location(b, test)
+    for v in vals:
+        ast.fix_missing_locations(v)
+    return b
+
+
 @dataclass
 class Frame:
     func: FuncInfo
@@ -694,6 +727,7 @@ class Walker:
                 for s in cur:
                     if s.exit is not None and s.exit[0] == "break":
                         s.exit = None
+                        self.emit(s, "loopbreak", n, lid=lid)
                     out.append(s)
                 continue
             # (a) zero iterations
@@ -714,6 +748,7 @@ class Walker:
                         out.extend(self.block(n.orelse, [s]) if n.orelse else [s])
                     elif s.exit[0] == "break":
                         s.exit = None
+                        self.emit(s, "loopbreak", n, lid=lid)  # the loop was left early: later elements were not visited
                         out.append(s)
                     else:
                         out.append(s)
@@ -745,6 +780,8 @@ class Walker:
         for s, truth in first:
             if not truth:
                 out.extend(self.block(n.orelse, [s]) if n.orelse else [s])
+        if first and all(not truth for _, truth in first):
+            return out  # the test is already decided false by what the path knows: the body never runs
         # (b) generic iteration
         sb = st
         self._havoc(sb, n.body + [ast.Expr(n.test)], lid, "")
@@ -815,6 +852,9 @@ class Walker:
                         continue
                 self.emit(s, "setelem", node, cont=cont, index=idx, value=v, aug=aug, addend=addend)
                 self.bump(s, cont)
+                if cont[0] != "slc" and idx[0] != "slc":
+                    # store-to-load forwarding: until the container changes again, reading this very position gives what was stored
+                    s.last[(self.key_of(cont), strip_epochs(cont), strip_epochs(idx))] = (self.epoch(s, cont), v)
                 out.append(s)
             return out
         raise AnalysisError(f"unsupported assignment target {type(t).__name__} at {st.frame.func.where(node)}")
@@ -840,6 +880,9 @@ class Walker:
 
     # ------------------------------------------------------------------ conditions
     def split(self, test, st: State) -> List[Tuple[State, bool]]:
+        unrolled = _unroll_any_all(test, st)
+        if unrolled is not None:
+            test = unrolled
         if isinstance(test, ast.BoolOp):
             is_and = isinstance(test.op, ast.And)
             results = []
@@ -1080,6 +1123,13 @@ class Walker:
         v = st.fields.get((base, name))
         if v is not None:
             return v
+        prov = getattr(self, "alias_provider", None)
+        if prov is not None:
+            K = self.typeof(base, st)
+            if K is not None:
+                F = prov(K.name).get(name)
+                if F is not None:
+                    return self.index_value(self.read_field(base, F, st), C(-1), st)  # a proved alias of the list's last element
         return ("f", base, name, max(st.epochs.get(("F", name), 0), st.epochs.get(("ALL",), 0)))
 
     def e_Subscript(self, n, st):
@@ -1119,6 +1169,9 @@ class Walker:
             hit = st.last.get((self.key_of(cont), strip_epochs(cont)))
             if hit is not None and hit[0] == self.epoch(st, cont):
                 return hit[1]
+        hit = st.last.get((self.key_of(cont), strip_epochs(cont), strip_epochs(idx)))
+        if hit is not None and hit[0] == self.epoch(st, cont):
+            return hit[1]
         if idx[0] == "ix" and idx[2] == cont:
             return ("it", idx[1], cont)
         return ("sub", cont, idx, self.epoch(st, cont))
@@ -1371,6 +1424,19 @@ class Walker:
             ast.copy_location(x, n)
         return gen
 
+    def _spread_star(self, args, star, pnames, kwargs, f, st):
+        """f(a, *xs, b): the one starred sequence fills, position by position (xs[0], xs[1], ...), the parameters from its place on that have
+        no default and are not given by keyword; positional arguments after it bind to the parameters that follow (what
+        `p1, p2 = xs` would bind when the call is well-formed)"""
+        i = next(k for k, v in enumerate(args) if v is star)
+        after = len(args) - i - 1
+        need = [pn for pn in pnames[i:] if pn not in kwargs and f.defaults.get(pn) is None]
+        k = len(need)
+        over = i + k + after - len(pnames)
+        if over > 0:
+            k = max(0, k - over)  # the trailing arguments take the last of those parameters
+        return list(args[:i]) + [("sub", star[1], C(j), self.epoch(st, star[1])) for j in range(k)] + list(args[i + 1:])
+
     def e_Call(self, n, st):
         # super()
         if isinstance(n.func, ast.Name) and n.func.id == "super" and not n.args and "super" not in st.env:
@@ -1600,9 +1666,8 @@ class Walker:
             pn = [x.arg for x in f.node.args.posonlyargs + f.node.args.args]
             if f.cls is not None and f.kind in ("method", "classmethod") and pn:
                 pn = pn[1:]
-            if len(stars) == 1 and args[-1] is stars[0] and not f.node.args.vararg:
-                need = [p_ for p_ in pn[len(args) - 1:] if p_ not in kwargs and f.defaults.get(p_) is None]
-                args = args[:-1] + [("sub", stars[0][1], C(i), self.epoch(st, stars[0][1])) for i in range(len(need))]
+            if len(stars) == 1 and not f.node.args.vararg:
+                args = self._spread_star(args, stars[0], pn, kwargs, f, st)
         K = None
         if f.cls is not None:
             if recv is not None and recv[0] == "cls":
@@ -1688,10 +1753,8 @@ class Walker:
                 spread.append(v)
         args = spread
         stars = [v for v in args if v[0] == "star"]
-        if len(stars) == 1 and args[-1] is stars[0] and not a.vararg:
-            lead = len(args) - 1
-            need = [pn for pn in pnames[lead:] if pn not in kwargs and f.defaults.get(pn) is None]
-            args = args[:-1] + [("sub", stars[0][1], C(i), self.epoch(st, stars[0][1])) for i in range(len(need))]
+        if len(stars) == 1 and not a.vararg:
+            args = self._spread_star(args, stars[0], pnames, kwargs, f, st)
         for i, v in enumerate(args):
             if v[0] == "star":
                 extra.append(v)
@@ -1760,8 +1823,9 @@ def _tuple_compare(test) -> bool:
         return False
     if isinstance(test.left, ast.Tuple) and all(isinstance(c, ast.Tuple) for c in test.comparators):
         return True
-    return len(test.ops) == 1 and isinstance(test.ops[0], (ast.In, ast.NotIn)) and isinstance(test.comparators[0], (ast.Tuple, ast.List, ast.Set)) \
-        and 0 < len(test.comparators[0].elts) <= 4
+    # membership in a short sequence of constants - written out, or held in a name (the evaluated comparison was decomposed only in that case)
+    return len(test.ops) == 1 and isinstance(test.ops[0], (ast.In, ast.NotIn)) and (isinstance(test.comparators[0], ast.Name) or (
+        isinstance(test.comparators[0], (ast.Tuple, ast.List, ast.Set)) and 0 < len(test.comparators[0].elts) <= 4))
 
 
 def _memo_decorator(d: str) -> bool:
@@ -1938,7 +2002,31 @@ def _field_tables(prog: Program) -> dict:
                     cn = call_class(prog, c, n.value)
                     if cn is not None:
                         direct[(c.name, mangle(c.name, n.target.attr))] = cn
+    for c in prog.classes.values():
+        for f in list(c.methods.values()) + list(c.setters.values()):
+            local_new = {}
+            local_lists: Dict[str, str] = {}  # local name -> class of the elements of the list comprehension bound to it
             for n in ast.walk(f.node):
+                if isinstance(n, ast.Assign) and len(n.targets) == 1 and isinstance(n.targets[0], ast.Name):
+                    if isinstance(n.value, ast.Call):
+                        cn = call_class(prog, c, n.value)
+                        if cn is not None:
+                            local_new[n.targets[0].id] = cn
+                    elif isinstance(n.value, ast.ListComp) and isinstance(n.value.elt, ast.Call):
+                        cn = call_class(prog, c, n.value.elt)
+                        if cn is not None:
+                            local_lists[n.targets[0].id] = cn
+            for n in ast.walk(f.node):
+                if isinstance(n, ast.Assign) and len(n.targets) == 1 and isinstance(n.targets[0], ast.Attribute) \
+                        and isinstance(n.targets[0].value, ast.Name) and n.targets[0].value.id == "self":
+                    # self.xs = [K(...) for ...]  /  xs = [K(...) for ...]; self.xs = xs : a list of K objects
+                    cn = None
+                    if isinstance(n.value, ast.ListComp) and isinstance(n.value.elt, ast.Call):
+                        cn = call_class(prog, c, n.value.elt)
+                    elif isinstance(n.value, ast.Name) and n.value.id in local_lists:
+                        cn = local_lists[n.value.id]
+                    if cn is not None:
+                        elems.setdefault((c.name, mangle(c.name, n.targets[0].attr), 1), cn)
                 if isinstance(n, ast.Call) and isinstance(n.func, ast.Attribute) and n.func.attr == "append" and n.args:
                     a = n.args[0]
                     cn = None
@@ -1946,6 +2034,8 @@ def _field_tables(prog: Program) -> dict:
                         cn = call_class(prog, c, a)
                     elif isinstance(a, ast.Name) and a.id in local_new:
                         cn = local_new[a.id]
+                    elif isinstance(a, ast.Attribute) and isinstance(a.value, ast.Name) and a.value.id == "self":
+                        cn = next((direct[(k.name, mangle(c.name, a.attr))] for k in c.mro() if (k.name, mangle(c.name, a.attr)) in direct), None)
                     if cn is None:
                         continue
                     depth = 1
